@@ -614,6 +614,81 @@ func init() {
 		})
 		summary(map[string]interface{}{"events": n})
 	}
+	// documents of NexusDocs.tla: tokens -> bytes -> the real readers (isolated worker)
+	extraDrivers["nexus-replay"] = func(fs *flag.FlagSet, args []string) {
+		cases := fs.String("cases", "cases.ndjson", "")
+		out := fs.String("out", "trace.ndjson", "")
+		prop := fs.String("prop", "C02", "")
+		shard := fs.Int("shard", 0, "")
+		nshards := fs.Int("nshards", 1, "")
+		fs.Parse(args)
+		f, err := os.Create(*out)
+		if err != nil {
+			fatal("%v", err)
+		}
+		defer f.Close()
+		var jobs []readJob
+		meta := map[int]map[string]interface{}{}
+		k := -1
+		eachLine(*cases, func(line []byte) {
+			k++
+			if k%*nshards != *shard {
+				return
+			}
+			var c struct {
+				Toks   []string `json:"toks"`
+				Kind   string   `json:"kind"`
+				NTrees int      `json:"ntrees"`
+				K      *int     `json:"k,omitempty"`
+			}
+			if err := json.Unmarshal(line, &c); err != nil {
+				fatal("case %d: %v", k, err)
+			}
+			kk := k
+			if c.K != nil {
+				kk = *c.K
+			}
+			var sb strings.Builder
+			for i, t := range c.Toks {
+				if i > 0 && t != "\n" && c.Toks[i-1] != "\n" {
+					sb.WriteString(" ")
+				}
+				sb.WriteString(t)
+			}
+			data := sb.String()
+			for _, entry := range []string{"multi", "first"} {
+				id := len(jobs)
+				jobs = append(jobs, readJob{Id: id, Format: utils.FORMAT_NEXUS, Entry: entry, Data: base64.StdEncoding.EncodeToString([]byte(data))})
+				txt := data
+				if len(txt) > 400 {
+					txt = txt[:400] + "..."
+				}
+				meta[id] = map[string]interface{}{"case": fmt.Sprintf("%s-case-%d", *prop, kk), "entry": entry, "input": txt, "bytes": len(data), "dev": c.Kind, "expect": c.NTrees}
+			}
+		})
+		res := runReadJobs(jobs, 15*time.Second)
+		for id, r := range res {
+			if r.Outcome == "panic" || r.Outcome == "hang" {
+				again := runReadJobs([]readJob{jobs[id]}, 30*time.Second)
+				if a, ok := again[jobs[id].Id]; ok {
+					res[id] = a
+				}
+			}
+		}
+		counts := map[string]int{}
+		for id := range jobs {
+			r, ok := res[id]
+			if !ok {
+				r = readRes{Id: id, Outcome: "err", IdsOK: true, Err: "no result"}
+			}
+			m := meta[id]
+			counts[m["dev"].(string)+"/"+r.Outcome]++
+			emitJSON(f, map[string]interface{}{"ev": "case", "kind": "ReadBytes", "case": m["case"], "cls": "nexus-" + m["entry"].(string) + "-" + m["dev"].(string),
+				"format": "nexus", "entry": m["entry"], "outcome": r.Outcome, "ntrees": r.NTrees, "idsok": r.IdsOK, "postcrash": r.Post,
+				"err": r.Err, "input": m["input"], "bytes": m["bytes"], "expect": m["expect"]})
+		}
+		summary(map[string]interface{}{"events": len(jobs), "outcomes": counts})
+	}
 	extraDrivers["readers"] = func(fs *flag.FlagSet, args []string) {
 		seed := fs.Int64("seed", 1, "")
 		from := fs.Int("from", 0, "")
